@@ -1351,4 +1351,9 @@ theorem withData_wf (a : Src) (d : List Rat) (h : a.wf) : (a.withData d).wf := b
   | cont c => exact h
   | ts l => trivial
 
+theorem overStep_eq_W (f : List Rat → Rat) (s : Src) (center : Bool) (r : Int × Int) :
+    overStep f s center r = (overStepW s center r).map fun w => (w.1, f w.2) := by
+  unfold overStep overStepW
+  cases (s.getitem r.1 r.2).samples <;> rfl
+
 end Verif.C04
